@@ -765,7 +765,7 @@ func init() {
 		Exec:   withSample(genC01, execC01),
 		Shrink: shrinkIdx,
 		// dataset half of the property: World III cluster leg (world3_c01.go)
-		Legs: []Leg{{Name: "cluster", RecycleEvery: 25, Gen: genC01Cluster, Seeds: func(tier string) int {
+		Legs: []Leg{{Name: "cluster", RecycleEvery: 25, Gen: withSchedKnobs(genC01Cluster), Seeds: func(tier string) int {
 			if tier == "thorough" {
 				return 12000
 			}
